@@ -202,7 +202,7 @@ func init() {
 
 func runC05(c *core.Ctx) {
 	quick := c.Quick()
-	budgets := []c05Budget{{Sends: 2, Faults: 1, Swaps: 1}, {Sends: 1, Faults: 2, Swaps: 1}, {Sends: 1, Faults: 1, Swaps: 1, Timers: 1}, {Sends: 1, Faults: 1, Swaps: 0, Begin: "FIX.4.1"}}
+	budgets := []c05Budget{{Sends: 2, Faults: 1, Swaps: 0}, {Sends: 1, Faults: 1, Swaps: 1}, {Sends: 1, Faults: 2, Swaps: 0}, {Sends: 1, Faults: 1, Swaps: 0, Timers: 1}, {Sends: 1, Faults: 1, Swaps: 0, Begin: "FIX.4.1"}}
 	// both engines configured with EnableNextExpectedMsgSeqNum=Y (the Logon carries tag 789 and the recovery is implied)
 	budgets = append(budgets, c05Budget{Sends: 1, Faults: 1, Swaps: 0, Begin: "FIX.4.4", NextExpected: true})
 	maxDepth := 60
@@ -216,7 +216,7 @@ func runC05(c *core.Ctx) {
 		c.SetDeadline(55 * time.Minute)
 	}
 	budget := budgets[0]
-	c.SetRule(fmt.Sprintf("BFS over the deviation events {application send on either side (also while disconnected), connection cut (loses all in-flight bytes in both directions), engine restart on the file store, delivering the other wire first, the silent-peer timer firing on either side (TestRequest racing the recovery)} interleaved at every step of the default schedule of two real sessions (initiator + acceptor) joined by two FIFO wires through the real stream parser; budget profiles (sends per side / faults / ordering deviations / timer firings) quick 2/1/1/0, 1/2/1/0, 1/1/1/1 and FIX.4.1 1/1/0/0, thorough 2/2/1/0, 3/2/1/0, 2/3/2/0, 2/2/1/2 and FIX.4.0/4.1/4.4 2/2/1/0 (first: %d/%d/%d); states de-duplicated by the canonical key of both sessions + wires + deliveries; safety in every state, convergence probe (reconnect, quiesce, up to 3 heartbeat rounds) from every state", budget.Sends, budget.Faults, budget.Swaps))
+	c.SetRule(fmt.Sprintf("BFS over the deviation events {application send on either side (also while disconnected), connection cut (loses all in-flight bytes in both directions), engine restart on the file store, delivering the other wire first, the silent-peer timer firing on either side (TestRequest racing the recovery)} interleaved at every step of the default schedule of two real sessions (initiator + acceptor) joined by two FIFO wires through the real stream parser; budget profiles (sends per side / faults / ordering deviations / timer firings) quick 2/1/0/0, 1/1/1/0, 1/2/0/0, 1/1/0/1, FIX.4.1 1/1/0/0 and (EnableNextExpectedMsgSeqNum=Y, FIX.4.4) 1/1/0/0, thorough 2/2/1/0, 3/2/1/0, 2/3/2/0, 2/2/1/2 and FIX.4.0/4.1/4.4 2/2/1/0 (first: %d/%d/%d); states de-duplicated by the canonical key of both sessions + wires + deliveries; safety in every state, convergence probe (reconnect, quiesce, up to 3 heartbeat rounds) from every state", budget.Sends, budget.Faults, budget.Swaps))
 	c.Assume("sequence resets disabled; FIX.4.2; heartbeat timers are fired by the probe, not by wall-clock", "a connection cut loses in-flight bytes of both directions at the same instant (combined with ordering deviations for asymmetric loss)",
 		"restarts only with the file store; the memory-store run explores cuts only",
 		"one profile runs both engines with EnableNextExpectedMsgSeqNum=Y (FIX.4.4): outside the statement's default configuration, explored because the option replaces the recovery protocol; not replayed on the real pair")
@@ -286,7 +286,7 @@ func runC05(c *core.Ctx) {
 								}
 								atomic.AddInt64(&states, 1)
 								local = append(local, node{path})
-								if budget.Timers == 0 && !budget.NextExpected && (!quick || bi == 0 || bi == 3) {
+								if budget.Timers == 0 && !budget.NextExpected && (!quick || bi == 0 || bi == 1 || bi == 4) {
 									// one representative path per model state goes to the real engines
 									e2eMuLocal.Lock()
 									e2eItems = append(e2eItems, e2eItem{File: file, Path: path, Budget: budget})
